@@ -827,6 +827,12 @@ class Client:
             )
         )
         self.channel.sink = self.on_pdu
+        self.channel.once(self.channel.EVENT_CLOSE, self.on_channel_close)
+
+    def on_channel_close(self) -> None:
+        # The response will never come: release the pending request, if any
+        if self.pending_response is not None and not self.pending_response.done():
+            self.pending_response.cancel()
 
     async def disconnect(self) -> None:
         if self.channel:
